@@ -1313,17 +1313,27 @@ SyntaxVisitor::Action TypeChecker::visitArraySubscriptExpression(
         const ArraySubscriptExpressionSyntax* node)
 {
     VISIT(node->argument());
-
     auto argTy = enumeratedTypeAsInt(unqualifiedAndResolved(ty_));
+    VISIT(node->expression());
+    auto coreTy = enumeratedTypeAsInt(unqualifiedAndResolved(ty_));
+
+    // One of the expressions is a pointer, the other is an integer: `E1[E2]'
+    // is `(*((E1)+(E2)))' (6.5.2.1), so `1[p]' is as good as `p[1]'.
+    auto argNode = node->argument();
+    auto exprNode = node->expression();
+    if (isIntegerType(coreTy)
+            && (argTy->kind() == TypeKind::Pointer
+                || argTy->kind() == TypeKind::Array)) {
+        std::swap(argTy, coreTy);
+        std::swap(argNode, exprNode);
+    }
+
     if (!isIntegerType(argTy)) {
-        diagReporter_.ExpectedExpressionOfIntegerType(node->argument()->lastToken());
+        diagReporter_.ExpectedExpressionOfIntegerType(argNode->lastToken());
         return typeCheckError(node);
     }
 
-    VISIT(node->expression());
-
     const Type* ty = nullptr;
-    auto coreTy = unqualifiedAndResolved(ty_);
     switch (coreTy->kind()) {
         case TypeKind::Array:
             ty = coreTy->asArrayType()->elementType();
@@ -1333,7 +1343,7 @@ SyntaxVisitor::Action TypeChecker::visitArraySubscriptExpression(
             break;
         default:
             diagReporter_.ExpectedExpressionOfPointerOrArrayType(
-                        node->expression()->lastToken());
+                        exprNode->lastToken());
             return typeCheckError(node);
     }
     return typeChecked(node, ty);
